@@ -109,6 +109,8 @@ def gen_plan(prop, run_seed, tier):
     w, s = F.fork("workload"), F.fork("schedule")
     policy = s.choice(["none", "none", "kper", "scripted"])
     n_plates = w.choice([1, 2, 3, 4, 5, 6, 8, 10, 12])
+    if w.random() < 0.05:  # more plates than any plausible block size
+        n_plates = w.choice([33, 70, 130])
     spec = pipe.gen_pipeline_screen(w, n_plates=n_plates, single_sample_plates=(policy == "kper"),
                                     observed_plates=w.randint(0, max(0, n_plates - 1)), n_samples=w.randint(1, 3))
     # duplicate conditions across plates so that the unique-condition filter has work to do
